@@ -156,6 +156,8 @@ def do_call(an, st, bi, t):
             v = an.reduce_nw(st, v, rt)
         ctx.args.append((v, rt))
     ctx.dest_tix = an.place_type(t["dest"])
+    if an.collect and an.watch is not None and an.watch(path):
+        an.res.call_states[bi] = [(v, tix, st.val_iv(v) if v[0] in ("n", "iv") else None) for (v, tix) in ctx.args]
     # explicit panics ------------------------------------------------------------
     if PANIC_FN.search(path) or (target is None and not c.get("resolved_local") and "process::exit" not in path and "process::abort" not in path
                                  and re.search(r"panic|unreachable|abort|fail", path)):
